@@ -577,16 +577,19 @@ pub fn render_enum(spec: &EnumSpec, derives: &[&str]) -> String {
         ("rebound-prelude-fns", "    fn Ok() {}\n    fn Err() {}\n    fn Some() {}\n    fn None() {}\n"),
         // a user type called Option next to the enum
         ("own-option-type", "    struct Option;\n"),
+        // the declaring module forbids unsafe code (generated code may neither contain `unsafe` nor try to `allow(unsafe_code)`)
+        ("forbid-unsafe", "    #![forbid(unsafe_code)]\n"),
     ] {
         if spec.syntax.iter().any(|x| x == flag) {
             let mut inner = spec.clone();
             inner.syntax.retain(|x| x != flag);
             let body = render_enum(&inner, derives);
             return format!(
-                "pub mod scoped_{n}_{k} {{\n    #![allow(unused_imports, dead_code, non_snake_case)]\n    use super::*;\n{items}{body}}}\npub use scoped_{n}_{k}::*;\n",
+                "pub mod scoped_{n}_{k} {{\n    #![allow(unused_imports, dead_code, non_snake_case)]\n{inner}    use super::*;\n{items}{body}}}\npub use scoped_{n}_{k}::*;\n",
                 n = spec.name.to_lowercase(),
                 k = flag.len(),
-                items = items,
+                inner = if items.trim_start().starts_with("#!") { items } else { "" },
+                items = if items.trim_start().starts_with("#!") { "" } else { items },
                 body = body
             );
         }
